@@ -290,6 +290,10 @@ impl Rt {
                 task: self.cur.get(),
             });
         }
+        // what the program does after it touched freed memory depends on what the allocator
+        // has done with that memory: end the execution at the next scheduling decision, so
+        // that the recorded history (and its digest) stops where the defined behaviour stops
+        self.stop.set(true);
     }
 
     /// Check an address the crate is about to access against the freed set.
